@@ -1862,6 +1862,13 @@ class SymInterp(Interp):
             return Arr(list(x.data) if isinstance(x, Arr) else [x], tuple(shp))
         if fn == "dtype" and len(args) == 1:
             return Ext(f"numpy.dtype.{args[0]}" if isinstance(args[0], str) else "numpy.dtype")
+        if fn in ("shape", "ndim", "size") and len(args) == 1 and not kwargs:
+            # the function spelling of the static array attributes (np.shape(A) is A.shape, ...): plain python values, known at trace time
+            x = args[0]
+            if isinstance(x, (Dual, int, float, Fraction)) and not isinstance(x, bool):
+                return {"shape": (), "ndim": 0, "size": 1}[fn]
+            if isinstance(x, Arr):
+                return {"shape": tuple(x.shape), "ndim": len(x.shape), "size": x.size()}[fn]
         if fn in ("float64", "float32", "int64", "int32", "double") and len(args) == 1 and not kwargs:
             return args[0]
         def is_conds(v):
@@ -1964,8 +1971,24 @@ class SymInterp(Interp):
                     return d_fun(fn, v)
                 except EvalError:
                     if not rat_is_zero(v.b):
-                        raise
+                        # forward derivative through the opaque value (chain rule): exp' = exp, expm1' = exp, log' = 1/x, log1p' = 1/(1+x)
+                        base = Dual(v.a)
+                        val = tf(base)
+                        if not (isinstance(val, Dual) and rat_is_zero(val.b)):
+                            raise
+                        if fn == "exp":
+                            der = val.a
+                        elif fn == "expm1":
+                            der = tf_named("exp", base).a
+                        elif fn == "log":
+                            der = _A.norm(Rat(Poly.const(1)) / v.a)
+                        else:
+                            der = _A.norm(Rat(Poly.const(1)) / (Rat(Poly.const(1)) + v.a))
+                        return Dual(val.a, _A.norm(der * v.b))
                     return self.fn_atom(fn, [v])
+
+            def tf_named(name, v):
+                return self.np_call(name, [v], {})
             return self._scalar_or_map(args[0], tf)
         if fn in ("sinh", "cosh", "tanh") and len(args) == 1 and not kwargs:
             # hyperbolic functions by their definition through the exponential: (e^x -+ e^-x)/2
@@ -1998,6 +2021,8 @@ class SymInterp(Interp):
             return self._scalar_or_map(args[0], sq)
         if fn == "square" and len(args) == 1:
             return self._scalar_or_map(args[0], lambda v: v * v)
+        if fn == "reciprocal" and len(args) == 1 and not kwargs:
+            return self._scalar_or_map(args[0], lambda v: Dual(1) / v)
         if fn in ("power", "float_power") and len(args) == 2:
             if self._is_half(args[1]):
                 return self.np_call("sqrt", [args[0]], {})
@@ -2007,7 +2032,15 @@ class SymInterp(Interp):
                     return d_pow(v, args[1])
                 except EvalError:
                     if not rat_is_zero(v.b):
-                        raise
+                        # forward derivative through the opaque power (chain rule): d x^k = k x^(k-1) dx for an exponent that does not depend on eps
+                        k_ = Dual.of(n(args[1]))
+                        if not rat_is_zero(k_.b):
+                            raise
+                        base = Dual(v.a)
+                        val, low = pw(base), self.num(self.np_call(fn, [base, k_ - Dual(1)], {}))
+                        if not (isinstance(val, Dual) and isinstance(low, Dual) and rat_is_zero(val.b) and rat_is_zero(low.b)):
+                            raise
+                        return Dual(val.a, _A.norm(k_.a * low.a * v.b))
                     return self.fn_atom("pow", [v, Dual.of(n(args[1]))])
             return self._scalar_or_map(args[0], pw)
         if fn == "isclose" and len(args) >= 2:
